@@ -6,7 +6,8 @@ from props.hmcommon import *
 
 _base_harnesses = harnesses
 def harnesses(tier):
-    return _base_harnesses(tier) + [('hm', ('XV_RECL=GC',), False, '_gc')]
+    # _sk: keys of a type whose move constructor empties its source (std::string inside)
+    return _base_harnesses(tier) + [('hm', ('XV_RECL=GC',), False, '_gc'), ('hm', ('XV_RECL=HPs<6>', 'XV_STRKEY'), False, '_hp_sk')]
 HARNESSES = harnesses('quick')
 THEOREM_NOTES = {
     'scope': 'the theorems are about a step-level model of harris_michael_list_based_set (emplace / emplace_or_get, erase(key), contains / find incl. helping and restarts) over a reclaimer whose guards are single loads and that never reuses nodes (what C01 provides): list structure, abstraction (abstract set = keys of unmarked reachable nodes), linearization points, every returned result equals the sequential answer at a state inside the call, exactly one of racing erases succeeds, conservation at quiescence - for any number of threads, programs and schedules. harris_michael_hash_map with one bucket produces the same traces; multi-bucket maps, get_or_emplace(_lazy), operator[], erase(iterator) and the real reclaimers (ABA with reuse) are covered by the search only',
@@ -46,5 +47,11 @@ def run(ctx):
             jobs.append((dict(cfg, aba='1'), gen(), 'random', n, ctx['seed'] + 1, ()))
             jobs.append((dict(cfg, aba='1'), [['ins 1', 'ins 10', 'ins 20', ('getins 5' if is_map else 'insget 5'), 'has 3', 'has 5'], ['del 10', 'ins 3', 'has 3']], 'random', 2 * n, ctx['seed'], ()))
             jobs.append((cfg, [hm_program(rng, 1, 24, keys=tuple(range(1, 9)), is_map=is_map)[0]], 'opseq', 1, ctx['seed'], ()))
+        if name.endswith('_sk'):
+            # racing insertions of the SAME key through every entry point that may retry after a failed install CAS
+            for cfg in ({'c': 'map', 'buckets': '1', 'memo': '0'}, {'c': 'map', 'buckets': '2', 'memo': '1', 'hash': 'mod2'}, {'c': 'set'}):
+                for a, b in (('getins 5', 'ins 5'), ('getlazy 5', 'getins 5'), ('insget 5', 'getlazy 5'), ('getins 5', 'getins 5')):
+                    jobs.append((cfg, [['ins 3', a, 'has 5', 'del 5', 'has 5'], [b, 'has 5']], 'dfs', n, ctx['seed'], ('--pb', '2')))
+                    jobs.append((cfg, [[a, 'del 5', 'has 5'], [b], ['ins 4', 'del 4']], 'random', n, ctx['seed'], ()))
         do_search(ctx, H, jobs, name, classify=lambda c, h, f, name=name: {'harness': name})
     return tie
